@@ -324,7 +324,7 @@ else:
             return PV
 
         j = i
-        cur = y[j]
+        cur = nxt = y[j]
         if cur > prv:
             mountain = True  # find mountain peak
         else:
